@@ -167,14 +167,29 @@ def run_correspondence(res, cfg, rundir):
     binp = os.path.join(HARN, "target", profile, "p2h")
     os.makedirs(rundir, exist_ok=True)
     env = dict(cfg.get("env", {}))
-    rc, out = sh([binp, "emit", cfg["harness_prop"], str(res.seed), res.tier, rundir],
-                 timeout=cfg.get("emit_timeout", 3600), env=env)
+    try:
+        rc, out = sh([binp, "emit", cfg["harness_prop"], str(res.seed), res.tier, rundir],
+                     timeout=cfg.get("emit_timeout", 900 if res.tier == "quick" else 5400), env=env)
+    except subprocess.TimeoutExpired:
+        rc, out = -999, "emit timed out"
+        subprocess.run(["pkill", "-f", f"p2h emit {cfg['harness_prop']} "])
     if rc != 0:
         err = {"what": "harness emit failed", "rc": rc, "log_tail": out[-3000:]}
         try:
             last = open(os.path.join(rundir, "req.txt")).read().rstrip("\n").split("\n")[-1]
-            err["crashing_request"] = last[:4000]
-            err["what"] = f"the implementation crashed the harness process (exit status {rc}) while answering the last request written"
+            stage = ""
+            try:
+                stage = open(os.path.join(rundir, "stage.txt")).read()
+            except Exception:
+                pass
+            if stage == "case":
+                err["crashing_request"] = last[:4000]
+                err["what"] = f"the implementation crashed the harness process (exit status {rc}) while answering the last request written"
+            else:
+                err["what"] = f"the harness process died or hung (exit status {rc}; -999 = time limit) outside a request, while: {stage or 'unknown'}"
+                if stage.startswith("impl:"):
+                    # the real code was running on an input the stage text describes
+                    err["crashing_request"] = stage[:4000]
         except Exception:
             pass
         return None, err
